@@ -14,6 +14,7 @@
    the theorems speak about the runs that return ([= Done _]); absence of panics is C03. *)
 From Coq Require Import ZArith.
 From CL Require Import Model.AnalysisSpec Proofs.AnalysisProofs.
+From CL Require Model.Lexer Model.Parser Model.EventBridge Proofs.ParserShape.
 
 (* the empty collector satisfies the invariant *)
 Theorem C06_init : forall ci_key, Inv ci_key init.
@@ -46,6 +47,36 @@ Proof.
 Qed.
 Print Assumptions C06_reachable.
 
+(* ... and in particular after every event stream of the pull-parser model (Model/Parser.v),
+   carried over by the bridge of Model/EventBridge.v: the shape hypothesis is discharged by
+   C03_parser_shaped, for every Unicode classification, every parser configuration (extension set,
+   debug or release, old or repaired parser code) and every source text.  [src] is the text the
+   parser read; [input] (what in_text slices) is left free, the implementation passes the same text *)
+Theorem C06_reachable_from_parser :
+  forall (U : N -> Lexer.ucls) (pc : Parser.pcfg) (src : str) (pevs : list Parser.pevent)
+         ci_key yaml_ok find_iq unit_class input x st,
+    Parser.events U pc src = Done pevs ->
+    run ci_key yaml_ok find_iq unit_class input x cfgF init (EventBridge.abstract_events pevs) = Done st ->
+    Inv ci_key st.
+Proof.
+  intros U pc src pevs ci_key yaml_ok find_iq unit_class input x st Ev.
+  apply C06_reachable. exists POut. exact (ParserShape.events_shaped U pc src pevs Ev).
+Qed.
+Print Assumptions C06_reachable_from_parser.
+
+(* the same for a stream cut after n events *)
+Theorem C06_reachable_from_parser_prefix :
+  forall (U : N -> Lexer.ucls) (pc : Parser.pcfg) (src : str) (pevs : list Parser.pevent) (n : nat)
+         ci_key yaml_ok find_iq unit_class input x st,
+    Parser.events U pc src = Done pevs ->
+    run ci_key yaml_ok find_iq unit_class input x cfgF init (EventBridge.abstract_events (firstn n pevs)) = Done st ->
+    Inv ci_key st.
+Proof.
+  intros U pc src pevs n ci_key yaml_ok find_iq unit_class input x st Ev.
+  apply C06_reachable. exact (ParserShape.events_prefix_shaped U pc src pevs n Ev).
+Qed.
+Print Assumptions C06_reachable_from_parser_prefix.
+
 (* the property on what is returned: whenever there is an output, valid or not, it is
    referentially consistent: indices in range and increasing in document order per kind,
    relations inverse of each other with each back link once and the target an earlier
@@ -75,6 +106,24 @@ Proof.
   exact (proj2 (analyse_ok ci_key yaml_ok find_iq unit_class input x cfgF evs r true eq_refl eq_refl Sh H) eq_refl).
 Qed.
 Print Assumptions C06_valid.
+
+(* the same two statements from the source text: what the analysis of the parser's own event
+   stream returns is referentially consistent (no shape hypothesis left) *)
+Theorem C06_output_from_parser :
+  forall (U : N -> Lexer.ucls) (pc : Parser.pcfg) (src : str) (pevs : list Parser.pevent)
+         ci_key yaml_ok find_iq unit_class input x r valid,
+    Parser.events U pc src = Done pevs ->
+    analyse ci_key yaml_ok find_iq unit_class input x cfgF (EventBridge.abstract_events pevs) = Done (Some r, valid) ->
+    recipe_ok r /\ (valid = true -> recipe_valid_ok ci_key r).
+Proof.
+  intros U pc src pevs ci_key yaml_ok find_iq unit_class input x r valid Ev H.
+  assert (Sh : parser_shaped_prefix (EventBridge.abstract_events pevs))
+    by (exists POut; exact (ParserShape.events_shaped U pc src pevs Ev)).
+  split; [exact (C06_output ci_key yaml_ok find_iq unit_class input x _ r valid Sh H)|].
+  intros ->. exact (C06_valid ci_key yaml_ok find_iq unit_class input x _ r Sh H).
+Qed.
+Print Assumptions C06_output_from_parser.
+
 
 (* what a consumer that indexes without checking relies on (the playground renderer does
    `section.content[index].unwrap_step()`): every item index, relation index, step target and
